@@ -32,6 +32,8 @@ def to_json(v, heap=None):
         return {'f': v.hex()}
     if isinstance(v, tuple):
         return {'t': [to_json(x, heap) for x in v]}
+    if isinstance(v, Opt):
+        raise Unsupported('optional value in a concrete call')
     if isinstance(v, dict):
         if '__native__' in v:
             return v['__native__']
@@ -95,9 +97,21 @@ def from_json(v, st, origin='local', name=''):
             return {k: from_json(x, st, origin, name) for k, x in v['d'].items()}
         if 's' in v:
             return v['s']
+        if 'obj' in v:
+            o = v['obj']
+            fields = dict(DTW_SETTINGS_DEFAULTS) if o['cls'] == 'DTWSettings' else {}
+            for k, x in o.get('kwargs', {}).items():
+                fields[k] = from_json(x, st, origin, name)
+            oid = st.new_oid('J')
+            st.heap[oid] = RecObj('%s.%s' % (o['module'], o['cls']), fields, origin=origin, name=name)
+            return Ref(oid)
         if 'repr' in v:
             return {'__repr__': v['repr']}
     raise Unsupported('cannot import native value %r' % (v,))
+
+
+DTW_SETTINGS_DEFAULTS = dict(window=None, use_pruning=False, max_dist=None, max_step=None, max_length_diff=None,
+                             penalty=None, psi=None, inner_dist='squared euclidean', use_ndim=False, use_c=False)
 
 
 # ------------------------------------------------------------------ native execution
@@ -213,13 +227,27 @@ class ConcreteChecker:
         for k, v in outcome.get('args_after', {}).items():
             if k in self.c.assigns:
                 continue
-            if json.dumps(v, sort_keys=True) != json.dumps(jargs[k], sort_keys=True) and not _same_num(v, jargs[k]):
+            if isinstance(jargs[k], dict) and 'obj' in jargs[k]:
+                continue      # opaque object: frame checked by the VC `frame` obligations only
+            if _norm(v) != _norm(jargs[k]):
                 bad.append('frame: argument %s modified' % k)
         return bad
 
 
-def _same_num(a, b):
-    return False
+def _norm(v):
+    """content of a value, ignoring container flavour tags"""
+    if isinstance(v, dict):
+        if 'f' in v:
+            return ('f', float.fromhex(v['f']).hex() if isinstance(v['f'], str) else float(v['f']).hex())
+        for k in ('l', 'a', 'n', 't'):
+            if k in v:
+                return (k if k == 't' else 'seq', tuple(_norm(x) for x in v[k]))
+        if 'd' in v:
+            return ('d', tuple(sorted((k, _norm(x)) for k, x in v['d'].items())))
+        return ('o', json.dumps(v, sort_keys=True))
+    if isinstance(v, list):
+        return ('seq', tuple(_norm(x) for x in v))
+    return v
 
 
 # ------------------------------------------------------------------ input enumeration
@@ -247,6 +275,24 @@ def small_values(desc, rng, bound):
         for b in small_values('block', rng, bound):
             for f in (False, True):
                 out.append({'t': b['t'] + [f]})
+        return out
+    if desc == 'series_collection':
+        out = []
+        for n in range(1, bound + 2):
+            for _ in range(2):
+                out.append({'l': [{'a': [{'f': float(rng.choice([0, 1, -1, 2, 0.5, 3])).hex()}
+                                         for _ in range(rng.randint(1, 3))]} for _ in range(n)]})
+        return out
+    if isinstance(desc, tuple) and desc[0] == 'rec' and desc[1] == 'dtw.DTWSettings':
+        inner = desc[2].get('inner_dist', ('const', 'squared euclidean'))[1]
+        psi4 = isinstance(desc[2].get('psi'), tuple)
+        base = [dict(), dict(window=2), dict(penalty={'f': (0.5).hex()}), dict(max_step={'f': (1.5).hex()}),
+                dict(window=1, max_dist={'f': (2.0).hex()})]
+        out = []
+        for kw in base:
+            kw = dict(kw, inner_dist=inner)
+            kw['psi'] = {'t': [0, 1, 1, 0]} if psi4 else rng.choice([None, 0, 1])
+            out.append({'obj': {'module': 'dtw', 'cls': 'DTWSettings', 'kwargs': kw}})
         return out
     if desc == 'series':
         out = []
